@@ -428,6 +428,52 @@ def ctor_out_of_range(label, mc):
     return False
 
 
+def sibling_ctor_stage(ctx):
+    """THE SIBLING CONSTRUCTORS Dual(2)::try_new_from / new_from (the functions behind the Python `vars_from`): a value or an
+    error, never an abort - on every pair of variable lists (other's, the new number's), derivatives given / defaulted / of
+    the wrong length, and in particular with the new number's names IDENTICAL to the other's (same order) and arrays of the
+    wrong length.  Model: Model/Dual.v dual(2)_try_new_from (C20_new_from); `rlharness dual` ops 22 / 23."""
+    import props.c03 as c03
+    import dualgen as dg
+    import random
+    rng = random.Random(ctx.seed * 15485863 + 5)
+    cases = [c for c in c03.gen_relist_cases(ctx) if c[0] in ("try_new_from", "new_from")]
+    L = [l for l in c03.layouts(["x", "y", "z"]) if l]
+    for kind in (1, 2):
+        for lo in L:
+            n = len(lo)
+            for nd in sorted(set([0, 1, n - 1, n, n + 1, 2 * n])):
+                if nd < 0:
+                    continue
+                for ndd in ([None] if kind == 1 else sorted(set([0, n * n, n * n + 1, n, max(0, n * n - 1)]))):
+                    okind = rng.choice([1, 2])
+                    du = [float(rng.choice([1, -2, 0.5, 3])) for _ in range(nd)]
+                    e = [22, kind, okind] + dg.enc_names(lo) + dg.enc_f(1.5) + dg.enc_names(lo) + [len(du)] + [f2b(v) for v in du]
+                    if kind == 2:
+                        e += [ndd] + [f2b(1.0)] * ndd
+                    cases.append(("try_new_from", e, "%s::try_new_from(other on (%s), 1.5, the SAME names, %d derivative values%s)" % (
+                        "Dual" if kind == 1 else "Dual2", ",".join(lo), nd, "" if kind == 1 else ", %d second-order values" % ndd),
+                        ["dual" if kind == 1 else "dual2"], "names identical to the other's"))
+    enc = [c[1] for c in cases]
+    impl = run_harness("dual", ["c " + " ".join(str(x) for x in c) for c in enc])
+    model = coq_eval("Run.RunDual", "runDual", enc, ctx.work, shard=max(50, len(enc) // (NCPU * 3) + 1), tag="c20sib")
+    for (tag, e, desc, sch, lab), a, b in zip(cases, impl, model):
+        ctx.evaluations += 1
+        ok, da, db = dg.agree(a, b, sch, rtol=1e-9)
+        ctx.count("ctor: %s -> %s" % (tag, {"ok": "Ok", "err": "Err", "panic": "ABORT"}.get(da[0], da[0])))
+        ctx.nontriv(("sib", tuple(e)))
+        if da[0] == "panic" or not ok:
+            line = "c " + " ".join(str(t) for t in e)
+            site = panic_site("dual", line) if da[0] == "panic" else None
+            ctx.violation("%s: %s (implementation %s, model %s)" % (
+                desc, "ABORTS instead of returning a value or an error" if da[0] == "panic" else "disagrees with the proved model",
+                str(dg.plain(da))[:200], str(dg.plain(db))[:200]),
+                {"part": "ctor-sibling", "entry": tag, "case": e, "schema": sch, "class": "abort" if da[0] == "panic" else "mismatch",
+                 "panic_file": site[0] if site else None, "panic_msg": site[2] if site else None,
+                 "implementation": dg.plain(da), "model": dg.plain(db),
+                 "harness_cmd": "echo '%s' | harness/target/release/rlharness dual" % line})
+
+
 def run(ctx):
     th = ctx.tier == "thorough"
     ctx.rule = ("(dates) seeded calendars of all kinds with a common working weekday; add_bus_days / lag / add_days over ALL 256 values "
@@ -455,7 +501,7 @@ def run(ctx):
     ]
     if translate_stage(ctx) is None:
         return ctx.finish(CMD)
-    if not proof_stage(ctx, ["theories/Run/RunJson.vo", "theories/Run/RunCal.vo", "theories/Proofs/CsolveWitness.vo"]):
+    if not proof_stage(ctx, ["theories/Run/RunJson.vo", "theories/Run/RunCal.vo", "theories/Run/RunDual.vo", "theories/Proofs/CsolveWitness.vo"]):
         ctx.violation("a C20 proof obligation or the model no longer compiles",
                       {"no_failing_input": True, "theorem": "Props/C20.v / Run/RunJson.v", "log_tail": getattr(ctx, "build_log", "")[-3000:]})
         return ctx.finish(CMD)
@@ -466,6 +512,7 @@ def run(ctx):
     calrun.run_cases(ctx, dcases, nontrivial=date_nontrivial)
     # constructors
     run_ctors(ctx, gen_ctor_cases(ctx))
+    sibling_ctor_stage(ctx)
     # from_json
     lcases = gen_load_cases(ctx, 1500 if th else 150)
     run_load(ctx, lcases)
@@ -505,6 +552,15 @@ def replay(ctx, rp):
         bad = a[0] == 2 or a[:2] != b[:2]
         print("replay %s `%s`: implementation %s, model %s -> %s" % (rp.get("entry"), rp["harness_line"][:200], a[:12], b[:12],
                                                                    "property violated" if bad else "ok"))
+    elif part == "ctor-sibling":
+        import dualgen as dg
+        build_coq(["theories/Run/RunDual.vo"])
+        e = rp["case"]
+        a = run_harness("dual", ["c " + " ".join(str(x) for x in e)])[0]
+        b = coq_eval("Run.RunDual", "runDual", [list(e)], ctx.work)[0]
+        ok, da, db = dg.agree(a, b, rp["schema"], rtol=1e-9)
+        bad = da[0] == "panic" or not ok
+        print("replay %s: implementation %s, model %s -> %s" % (rp.get("entry"), a[:12], b[:12], "property violated" if bad else "ok"))
     elif part == "raw":
         t = rp["text"]
         a = run_harness("json", ["raw " + " ".join(str(x) for x in t.encode("utf-8"))])[0]
